@@ -21,6 +21,10 @@ CHECKS = {
    text="Explicit-state BFS over histories of the real router's receive path: crafted beacons/SHB/TSB/GBC/GAC/GUC/LS packets from several sources (and from the station's own address) with PV timestamps before, at and after the receiver clock at millisecond resolution, interleaved with clock advances around the entry lifetime, explored once at an ordinary clock value and once 10 s before the 2^32 ms timestamp wrap; after every event get_entry()/get_neighbours() are compared with a reference table (newest PV by serial order, neighbour rules, strict expiry). Plus all ordered pairs of a 32-bit timestamp lattice around 0, 2^31 and 2^32 for irreflexivity, antisymmetry, agreement with real time and the modular difference. The suite uses one patched clock value and never a skewed or wrapping timestamp.",
    note="Trusted: CPython, RefLocT reference (mc/checks/c08.py), reference codec. Depth 4 (5 thorough); sequence numbers unique per source; stale packets from unknown sources may or may not create an entry (left open by the statement).",
    technique="explicit-state BFS over real objects with a reference model in lock-step + exhaustive pair lattice for the timestamp order"),
+ "C07": dict(level="exploration", design="3/C07",
+   text="Complete enumeration of a declared lattice through the real receive path: 9 area centres (all four hemispheres, equator/prime-meridian neighbourhood, 80 N, across the 180 degree meridian) x circle/rectangle/ellipse x GBC/GAC x semi-axis pairs from 1 m to 65535 m x 8 azimuths x 16 bearings x 8 radius factors around the border; each point is a crafted packet injected into a real router placed at that point, and the delivery decision is compared with an independent tangent-plane implementation of EN 302 931 with azimuth rotation (tolerance band and projection disagreement excluded and counted). Plus area-size control at source and forwarder around the itsGnMaxGeoAreaSize thresholds (1/10/80 km2) and the Annex D selection (area / non-area / discard) observed at a CBF forwarder for ego and sender inside/outside x PAI x rotated shapes.",
+   note="Trusted: CPython, mc/ref/geo_area.py, reference codec. The continuous plane between lattice points is not covered; sender = source (link layer does not expose the previous hop).",
+   technique="exhaustive finite-lattice enumeration through the real receive path against a reference geometry"),
 }
 
 NOT_APPLICABLE = {}
